@@ -117,14 +117,15 @@ type Env struct {
 	// Stale holds the handles (snapshot collections) whose version has been
 	// superseded by a later mutation of the original; StaleNames the same for
 	// suspended visits.  Used to attribute item loads (C15 known finding).
-	Stale map[*gkvlite.Collection]bool
-	cbN   [9]int64 // callback invocation counters (atomic: callbacks may run on gkvlite's iterator goroutines)
-	RC    *RefMon
-	Stats map[string]int64
-	Viol  *Violation
-	Step  int
-	CurOp string
-	Trace []string // op descriptions (bounded)
+	Stale     map[*gkvlite.Collection]bool
+	cbNilItem int64    // reference callbacks invoked with a nil item
+	cbN       [9]int64 // callback invocation counters (atomic: callbacks may run on gkvlite's iterator goroutines)
+	RC        *RefMon
+	Stats     map[string]int64
+	Viol      *Violation
+	Step      int
+	CurOp     string
+	Trace     []string // op descriptions (bounded)
 	// extra stores whose handles are also read back (C10)
 	Peers []*Env
 	// Cmps fixes the comparator of every collection name for the whole case
@@ -264,12 +265,18 @@ func (e *Env) callbacks() gkvlite.StoreCallbacks {
 	}
 	if m&CBRef != 0 {
 		cb.ItemAddRef = func(c *gkvlite.Collection, i *gkvlite.Item) {
+			if i == nil {
+				atomic.AddInt64(&e.cbNilItem, 1)
+			}
 			if e.RC != nil {
 				e.RC.AddRef(i)
 			}
 			atomic.AddInt64(&e.cbN[1], 1)
 		}
 		cb.ItemDecRef = func(c *gkvlite.Collection, i *gkvlite.Item) {
+			if i == nil {
+				atomic.AddInt64(&e.cbNilItem, 1)
+			}
 			if e.RC != nil {
 				e.RC.DecRef(i)
 			}
@@ -872,6 +879,10 @@ func (e *Env) AfterStep() {
 		v := e.F.Violations[0]
 		parts := strings.SplitN(v, ": ", 2)
 		e.Failf(parts[0], "%s", v)
+		return
+	}
+	if n := atomic.LoadInt64(&e.cbNilItem); n > 0 {
+		e.Failf("callbacks/reference-callback-called-with-nil-item", "ItemAddRef/ItemDecRef was invoked %d time(s) with a nil item", n)
 		return
 	}
 	if e.RC != nil {
